@@ -120,6 +120,7 @@ def run(ctx, canary=False):
     ctx.extra["spec_histories"] = len(emits)
     fresh_cache = {}
     iters = 25
+    old_cbs = []          # [list the callback appends to, its length when its own call returned, description]
     for e in emits[: (len(emits) if thorough else 150)]:
         warm = e["warm"]
         calls = e["calls"]
@@ -140,7 +141,28 @@ def run(ctx, canary=False):
                 elif c.get("cb") == "logger":
                     from mbi.callbacks import Logger
                     cb = Logger(eng, frequency=7)
-                model = E.quiet(eng.estimate, meas, total=TOT[c["t"]], engine=c["s"], callback=cb, options=opts)
+                omit = rng.random() < 0.5       # estimate()'s own default for options (a dict shared by all calls and all engines)
+                if omit:
+                    model = E.quiet(eng.estimate, meas, total=TOT[c["t"]], engine=c["s"], callback=cb)
+                else:
+                    model = E.quiet(eng.estimate, meas, total=TOT[c["t"]], engine=c["s"], callback=cb, options=opts)
+                late = [d_ for lst, n0, d_ in old_cbs if len(lst) != n0]
+                if late:
+                    ctx.violation("call %d invoked a callback that was passed to an EARLIER estimate call (%s)" % (k + 1, late[0]), info, {"kind": "stale_callback"})
+                    break
+                if c.get("cb") == "counter":
+                    fk = ("cbcount", c["l"], c["t"], c["s"])
+                    if fk not in fresh_cache:
+                        cnt = []
+                        E.quiet(fresh_engine(False, iters, dict(ZEROS)).estimate, [tuple(m) for m in L[c["l"]]], total=TOT[c["t"]], engine=c["s"],
+                                callback=lambda mu, cnt=cnt: cnt.append(1), options={})
+                        fresh_cache[fk] = len(cnt)
+                    if len(seen_cb) != fresh_cache[fk]:
+                        ctx.violation("call %d invoked its callback %d times; a fresh engine with the same arguments invokes it %d times (options %s)" % (
+                            k + 1, len(seen_cb), fresh_cache[fk], "omitted" if omit else "given"), info, {"kind": "callback_count"})
+                        break
+                    old_cbs.append([seen_cb, len(seen_cb), "options %s" % ("omitted" if omit else "given")])
+                    del old_cbs[:-40]
                 if c.get("cb") == "counter" and seen_cb:
                     if len(seen_cb) != iters or any(not math.isclose(v, float(model.total), rel_tol=1e-6) for v in seen_cb):
                         ctx.violation("call %d: the callback was called %d times (iters=%d) with marginal vectors of mean mass %s (total %r)" % (
@@ -177,6 +199,7 @@ def run(ctx, canary=False):
                     break
                 handed.append((model, cur))
         except Exception as ex:
+            import traceback; info["traceback"] = traceback.format_exc()[-1500:]
             ctx.violation("estimate history raised %r" % ex, info, {"kind": "crash"})
     # warm start converges to the same optimum as a cold start (grown / changed lists)
     nw = 40 if thorough else 3
